@@ -44,7 +44,10 @@ MANIFEST = dict(
          "trie.asn1 whose index is the BFS layout (leaf first, children ascending, consecutive ranges). `reader_on_conforming_file`: "
          "every conforming file, whoever wrote it, is read as the map of its tree (independent writer). Proof by DER round trips, "
          "the BFS loop invariant (bfs_layout), refinement of the reader to a walk on the builder tree, and the explicit-stack DFS of "
-         "entries(). `writes_within_limits`: inside the 16-bit/256 MiB limits write succeeds. NOT a theorem: that the bytes depend "
+         "entries(). `validate_write`: the index of every written file passes the structural check Trie::new performs since the repair "
+         "of C12's F16/F17 (validate_index — the model's openTrie ends with it; the scan follows the BFS emission order and its `next` "
+         "is the writer's child_begin), so read_write/C11 hold unchanged; Conforms includes the BFS-order clause. "
+         "`writes_within_limits`: inside the 16-bit/256 MiB limits write succeeds. NOT a theorem: that the bytes depend "
          "only on the per-key phrase vectors and not on the order in which keys were first inserted (`deterministic` is the literal "
          "'equal input, equal bytes'); this is checked by the oracle on regrouped inputs. Tie: trie.asn1 / trie.rs constants "
          "regenerated every run; byte-for-byte correspondence of writer and reader on generated entry sets and extreme shapes; "
